@@ -1,6 +1,6 @@
 """C12 — manifest text means what the manual says (DESIGN 5.12)."""
 from facts import AnalysisBroken
-from model import (dstr, strip, fact_holds, mentions_field, mentions_call, mentions_var,
+from model import (store_arms, dstr, strip, fact_holds, mentions_field, mentions_call, mentions_var,
                    mentions_enum, const_value, walk)
 from rules import (reached_only_through, guarded, calls_to, field_writes, who_may_call, full_range, loops_over,
                    every_iteration_passes, basename, origins, is_var, is_enum, lastname,
@@ -191,11 +191,12 @@ def run(ctx):
         ctx.check('C12.TA1', r is None, pfi.name, 'include:scope-not-assigned', pfi.where(ld),
                   'the sub-parser\'s scope is (re)assigned on every path before it loads a file',
                   witness=None if r is None else {'blocks': r[0]})
-    for e in envw:
-        facts = pfi.facts_at(e)
+    for e, r, extra in [(e, r, extra) for e in envw for r, extra in store_arms(pfi, e)]:
+        facts = dict(pfi.facts_at(e))
+        facts.update(extra)
         new = fact_holds(facts, var_named('new_scope'), True)
         old = fact_holds(facts, var_named('new_scope'), False)
-        r = strip(e.get('r'))
+        r = strip(r)
         is_new = isinstance(r, dict) and r.get('k') == 'new' and 'BindingEnv' in (r.get('ty') or '') and \
             any(mentions_field(a, 'ManifestParser::env_') for a in r.get('args', []))
         is_same = isinstance(r, dict) and r.get('k') == 'mem' and r['n'] == 'ManifestParser::env_' and \
@@ -228,22 +229,31 @@ def run(ctx):
     ctx.check('C12.O2', set(cls) == {'own', 'rule', 'parent'}, lwf.name, 'lookup:three-sources', lwf.loc,
               'LookupWithFallback answers from own bindings, rule binding, parent chain (%s)' % sorted(cls))
     if set(cls) == {'own', 'rule', 'parent'}:
-        found = lambda a: 'bindings_.end()' in dstr(a)
-        guarded(ctx, 'C12.O2', lwf, cls['own'], found, True, 'own bindings win', construct='lookup:own-first')
-        guarded(ctx, 'C12.O2', lwf, cls['rule'], found, False, 'the rule binding is consulted only if the edge has none',
+        # (iterator comparisons are normalised to `it == end()`: "found" is that atom being false)
+        at_end = lambda a: 'bindings_.end()' in dstr(a)
+        guarded(ctx, 'C12.O2', lwf, cls['own'], at_end, False, 'own bindings win', construct='lookup:own-first')
+        guarded(ctx, 'C12.O2', lwf, cls['rule'], at_end, True, 'the rule binding is consulted only if the edge has none',
                 construct='lookup:rule-second')
         guarded(ctx, 'C12.O2', lwf, cls['parent'], var_named('eval'), False, 'the enclosing scopes come last',
                 construct='lookup:parent-last')
-        guarded(ctx, 'C12.O2', lwf, cls['parent'], found, False, 'the enclosing scopes come last', construct='lookup:parent-last2')
+        guarded(ctx, 'C12.O2', lwf, cls['parent'], at_end, True, 'the enclosing scopes come last', construct='lookup:parent-last2')
         ev = [x for x in lwf.calls('EvalString::Evaluate')]
         ctx.check('C12.O2', len(ev) == 1 and mentions_var(ev[0].get('args'), 'env'), lwf.name, 'lookup:rule-env', lwf.loc,
                   'the rule binding is evaluated in the environment passed by the edge (late expansion in the build\'s scope)')
     lv = prog.fn('BindingEnv::LookupVariable')
-    ok = any('second' in dstr(e.get('e')) and fact_holds(lv.facts_at(e), lambda a: 'bindings_.end()' in dstr(a), True) for e in lv.events('ret')) and \
+    ok = any('second' in dstr(e.get('e')) and fact_holds(lv.facts_at(e), lambda a: 'bindings_.end()' in dstr(a), False) for e in lv.events('ret')) and \
         any(mentions_call(e.get('e'), 'BindingEnv::LookupVariable') and mentions_field(e.get('e'), 'BindingEnv::parent_') for e in lv.events('ret'))
     ctx.check('C12.O2', ok, lv.name, 'scope-chain', lv.loc, 'BindingEnv::LookupVariable: own binding, else the parent scope')
     lr = prog.fn('BindingEnv::LookupRule')
     ok = any(mentions_call(e.get('e'), 'BindingEnv::LookupRule') and mentions_field(e.get('e'), 'BindingEnv::parent_') for e in lr.events('ret'))
+    if not ok:
+        # the iterative idiom: a scope variable that advances through parent_ and whose rules_ is searched
+        for st in lr.stores():
+            if mentions_field(st.get('r'), 'BindingEnv::parent_') and strip(st['l']).get('k') == 'var':
+                sv = strip(st['l'])['n']
+                if any(lastname(c.get('name')) == 'find' and mentions_field(c.get('recv'), 'BindingEnv::rules_') and mentions_var(c.get('recv'), sv)
+                       for c in lr.events('call')):
+                    ok = True
     ctx.check('C12.O2', ok, lr.name, 'rule-scope-chain', lr.loc, 'rules are looked up through the scope chain')
     lcs = prog.fn('BindingEnv::LookupRuleCurrentScope')
     ctx.check('C12.O2', not any(mentions_field(e.get('e'), 'BindingEnv::parent_') for e in lcs.events('ret')) and
